@@ -17,5 +17,5 @@ CONSTANTS
   NonceModes <- AllModes
 VIEW view
 INVARIANTS TypeOK Conservation BurnOnlyWithoutCoinbase StakeAccounting
-PROPERTIES BurnIsFees Trichotomy OnlyAuthorised NonceSequential
+PROPERTIES BurnIsFees Trichotomy OnlyAuthorised NonceSequential NameSenderNeedsOwnerKey CommittedNameStable
 CHECK_DEADLOCK FALSE
